@@ -4,6 +4,7 @@
 package cstress
 
 import (
+	"os"
 	"context"
 	"errors"
 	"encoding/binary"
@@ -75,6 +76,15 @@ type History struct {
 	Events     int
 	OrderHash  uint64
 	WallMs     int64
+}
+
+// StuckLimit is the wall-clock wait for "everything has returned after Close": 20 s among the other cases of a loaded
+// machine (an expiry there only makes the history a suspect), 120 s when the history is re-run alone (an expiry counts).
+func StuckLimit() time.Duration {
+	if os.Getenv("VERIF_REPLAY") != "" {
+		return 120 * time.Second
+	}
+	return 20 * time.Second
 }
 
 type Opts struct {
@@ -379,7 +389,7 @@ func Run(f cli.Family, rng *rand.Rand, o Opts) *History {
 	go func() { wg.Wait(); <-closeDone; close(allDone) }()
 	select {
 	case <-allDone:
-	case <-time.After(20 * time.Second):
+	case <-time.After(StuckLimit()):
 		// watchdog: the client is closed (or all contexts are done); whatever still sits in the client is stuck
 		h.Stuck = libGoroutines("SendAndRead", "Close")
 		close(release)
